@@ -14,41 +14,275 @@ namespace Cfr
 /-- two strategies of the same player of the same game -/
 def SameShape (a b : Strat ℝ) : Prop := a.map List.length = b.map List.length
 
+/-! ## helper lemmas -/
+
+theorem absS_eq_abs (x : ℝ) : absS x = |x| := by
+  unfold absS
+  split_ifs with h
+  · exact (abs_of_neg h).symm
+  · exact (abs_of_nonneg (not_lt.mp h)).symm
+
+/-- the summand `|x - y|^p` -/
+noncomputable def dterm (p x y : ℝ) : ℝ := |x - y| ^ p
+
+theorem dterm_nonneg (p x y : ℝ) : 0 ≤ dterm p x y :=
+  Real.rpow_nonneg (abs_nonneg _) _
+
+theorem dterm_comm (p x y : ℝ) : dterm p x y = dterm p y x := by
+  unfold dterm; rw [abs_sub_comm]
+
+theorem dterm_self (p : ℝ) (hp : 0 < p) (x : ℝ) : dterm p x x = 0 := by
+  unfold dterm; rw [sub_self, abs_zero, Real.zero_rpow hp.ne']
+
+theorem dterm_pos (p x y : ℝ) (h : x ≠ y) : 0 < dterm p x y :=
+  Real.rpow_pos_of_pos (abs_pos.mpr (sub_ne_zero.mpr h)) _
+
+/-- the flattened zip sum -/
+noncomputable def zsum (p : ℝ) (l r : List ℝ) : ℝ := (List.zipWith (dterm p) l r).sum
+
+@[simp] theorem zsum_nil_left (p : ℝ) (r : List ℝ) : zsum p [] r = 0 := by simp [zsum]
+@[simp] theorem zsum_nil_right (p : ℝ) (l : List ℝ) : zsum p l [] = 0 := by simp [zsum]
+@[simp] theorem zsum_cons (p x y : ℝ) (l r : List ℝ) :
+    zsum p (x :: l) (y :: r) = dterm p x y + zsum p l r := by simp [zsum]
+
+theorem zsum_append (p : ℝ) (l₁ l₂ r₁ r₂ : List ℝ) (h : l₁.length = r₁.length) :
+    zsum p (l₁ ++ l₂) (r₁ ++ r₂) = zsum p l₁ r₁ + zsum p l₂ r₂ := by
+  unfold zsum
+  rw [List.zipWith_append h, List.sum_append]
+
+theorem distSum_eq (p : ℝ) : ∀ (l r : List ℝ) (acc : ℝ), distSum p l r acc = acc + zsum p l r
+  | [], _, acc => by simp [distSum]
+  | _ :: _, [], acc => by simp [distSum]
+  | x :: l, y :: r, acc => by
+    rw [distSum, distSum_eq p l r, zsum_cons, transc_pow, absS_eq_abs, add_assoc]
+    rfl
+
+theorem zsum_nonneg (p : ℝ) : ∀ (l r : List ℝ), 0 ≤ zsum p l r
+  | [], _ => by simp
+  | _ :: _, [] => by simp
+  | x :: l, y :: r => by
+    rw [zsum_cons]
+    exact add_nonneg (dterm_nonneg p x y) (zsum_nonneg p l r)
+
+theorem zsum_comm (p : ℝ) : ∀ (l r : List ℝ), zsum p l r = zsum p r l
+  | [], _ => by simp
+  | _ :: _, [] => by simp
+  | x :: l, y :: r => by
+    rw [zsum_cons, zsum_cons, dterm_comm, zsum_comm p l r]
+
+theorem zsum_self (p : ℝ) (hp : 0 < p) : ∀ (l : List ℝ), zsum p l l = 0
+  | [] => by simp
+  | x :: l => by rw [zsum_cons, dterm_self p hp, zsum_self p hp l, add_zero]
+
+theorem zsum_pos (p : ℝ) : ∀ (l r : List ℝ), l.length = r.length → l ≠ r → 0 < zsum p l r
+  | [], [], _, hne => absurd rfl hne
+  | [], _ :: _, hl, _ => by simp at hl
+  | _ :: _, [], hl, _ => by simp at hl
+  | x :: l, y :: r, hl, hne => by
+    rw [zsum_cons]
+    by_cases hxy : x = y
+    · subst hxy
+      have hne' : l ≠ r := fun h => hne (by rw [h])
+      have := zsum_pos p l r (by simpa using hl) hne'
+      have := dterm_nonneg p x x
+      linarith
+    · have := dterm_pos p x y hxy
+      have := zsum_nonneg p l r
+      linarith
+
+theorem list_sum_nonneg : ∀ (l : List ℝ), (∀ x ∈ l, 0 ≤ x) → 0 ≤ l.sum
+  | [], _ => by simp
+  | x :: l, h => by
+    rw [List.sum_cons]
+    exact add_nonneg (h x (by simp)) (list_sum_nonneg l (fun y hy => h y (by simp [hy])))
+
+theorem list_le_sum : ∀ (l : List ℝ), (∀ x ∈ l, 0 ≤ x) → ∀ x ∈ l, x ≤ l.sum
+  | [], _, x, hx => by simp at hx
+  | y :: l, h, x, hx => by
+    rw [List.sum_cons]
+    have hy : 0 ≤ y := h y (by simp)
+    have hl : ∀ z ∈ l, 0 ≤ z := fun z hz => h z (by simp [hz])
+    rcases List.mem_cons.mp hx with rfl | hx'
+    · have := list_sum_nonneg l hl
+      linarith
+    · have := list_le_sum l hl x hx'
+      linarith
+
+/-- one summand: for entries in `[0,1]` and `1 ≤ p`, `|x - y|^p ≤ x + y` -/
+theorem dterm_le (p : ℝ) (hp : 1 ≤ p) (x y : ℝ) (hx0 : 0 ≤ x) (hx1 : x ≤ 1) (hy0 : 0 ≤ y)
+    (hy1 : y ≤ 1) : dterm p x y ≤ x + y := by
+  unfold dterm
+  have h1 : |x - y| ≤ 1 := abs_le.mpr ⟨by linarith, by linarith⟩
+  have h2 : |x - y| ≤ x + y := abs_le.mpr ⟨by linarith, by linarith⟩
+  exact (Real.rpow_le_self_of_le_one (abs_nonneg _) h1 hp).trans h2
+
+theorem zsum_le (p : ℝ) (hp : 1 ≤ p) : ∀ (l r : List ℝ), (∀ x ∈ l, 0 ≤ x ∧ x ≤ 1) →
+    (∀ y ∈ r, 0 ≤ y ∧ y ≤ 1) → zsum p l r ≤ l.sum + r.sum
+  | [], r, _, hr => by
+    simp only [zsum_nil_left, List.sum_nil, zero_add]
+    exact list_sum_nonneg r (fun y hy => (hr y hy).1)
+  | x :: l, [], hl, _ => by
+    simp only [zsum_nil_right, List.sum_nil, add_zero]
+    exact list_sum_nonneg _ (fun y hy => (hl y hy).1)
+  | x :: l, y :: r, hl, hr => by
+    rw [zsum_cons, List.sum_cons, List.sum_cons]
+    have hx := hl x (by simp)
+    have hy := hr y (by simp)
+    have h1 := dterm_le p hp x y hx.1 hx.2 hy.1 hy.2
+    have h2 := zsum_le p hp l r (fun z hz => hl z (by simp [hz])) (fun z hz => hr z (by simp [hz]))
+    linarith
+
+theorem isDist_bounds (v : List ℝ) (hv : IsDist v) : ∀ x ∈ v, 0 ≤ x ∧ x ≤ 1 := fun x hx =>
+  ⟨hv.1 x hx, hv.2 ▸ list_le_sum v hv.1 x hx⟩
+
+/-- per infoset: `Σ |l - r|^p ≤ 2` -/
+theorem zsum_dist_le (p : ℝ) (hp : 1 ≤ p) (v w : List ℝ) (hv : IsDist v) (hw : IsDist w) :
+    zsum p v w ≤ 2 := by
+  have := zsum_le p hp v w (isDist_bounds v hv) (isDist_bounds w hw)
+  rw [hv.2, hw.2] at this
+  linarith
+
+/-- summing over the infosets -/
+theorem zsum_flatten_le (p : ℝ) (hp : 1 ≤ p) : ∀ (a b : Strat ℝ), IsStrat a → IsStrat b →
+    SameShape a b → zsum p a.flatten b.flatten ≤ 2 * (a.length : ℝ)
+  | [], _, _, _, _ => by simp
+  | _ :: _, [], _, _, hs => by simp [SameShape] at hs
+  | v :: a, w :: b, ha, hb, hs => by
+    have hs' : v.length = w.length ∧ SameShape a b := by
+      simpa [SameShape] using hs
+    rw [List.flatten_cons, List.flatten_cons, zsum_append p _ _ _ _ hs'.1]
+    have h1 := zsum_dist_le p hp v w (ha v (by simp)) (hb w (by simp))
+    have h2 := zsum_flatten_le p hp a b (fun z hz => ha z (by simp [hz]))
+      (fun z hz => hb z (by simp [hz])) hs'.2
+    rw [List.length_cons, Nat.cast_succ]
+    linarith
+
+theorem sameShape_length (a b : Strat ℝ) (hs : SameShape a b) : a.length = b.length := by
+  have := congrArg List.length hs
+  simpa using this
+
+theorem sameShape_flatten_length (a b : Strat ℝ) (hs : SameShape a b) :
+    a.flatten.length = b.flatten.length := by
+  rw [List.length_flatten, List.length_flatten]
+  unfold SameShape at hs
+  rw [hs]
+
+theorem sameShape_flatten_inj : ∀ (a b : Strat ℝ), SameShape a b → a.flatten = b.flatten → a = b
+  | [], [], _, _ => rfl
+  | [], _ :: _, hs, _ => by simp [SameShape] at hs
+  | _ :: _, [], hs, _ => by simp [SameShape] at hs
+  | v :: a, w :: b, hs, hf => by
+    have hs' : v.length = w.length ∧ SameShape a b := by
+      simpa [SameShape] using hs
+    rw [List.flatten_cons, List.flatten_cons] at hf
+    obtain ⟨h1, h2⟩ := List.append_inj hf hs'.1
+    rw [h1, sameShape_flatten_inj a b hs'.2 h2]
+
+/-- the value of `distanceOne` for positive `p` and at least one infoset -/
+theorem distanceOne_eq (p : ℝ) (hp : 0 < p) (a b : Strat ℝ) (hne : a ≠ []) :
+    distanceOne p a b = some (zsum p a.flatten b.flatten / 2 / (a.length : ℝ)) := by
+  unfold distanceOne
+  rw [if_pos hp]
+  have hl : (a.length == 0) = false := by
+    cases a with
+    | nil => exact absurd rfl hne
+    | cons _ _ => rfl
+  rw [hl, distSum_eq, zero_add]
+  norm_num
+
+theorem distanceOne_nil (p : ℝ) (hp : 0 < p) (b : Strat ℝ) : distanceOne p [] b = some 0 := by
+  unfold distanceOne
+  rw [if_pos hp]
+  rfl
+
+theorem length_cast_pos (a : Strat ℝ) (hne : a ≠ []) : (0 : ℝ) < (a.length : ℝ) := by
+  have : 0 < a.length := List.length_pos_iff.mpr hne
+  exact_mod_cast this
+
+/-! ## the theorems -/
+
 /-- **it panics exactly when `p` is not positive** -/
 theorem distance_panics_iff (p : ℝ) (a b : Strat ℝ) : distanceOne p a b = none ↔ ¬ 0 < p := by
-  sorry
+  unfold distanceOne
+  by_cases hp : 0 < p
+  · rw [if_pos hp]
+    split_ifs <;> simp [hp]
+  · rw [if_neg hp]
+    simp [hp]
 
 /-- a player without decisions: distance `0` (never `0/0`) -/
-theorem distance_no_infosets (p : ℝ) (hp : 0 < p) : distanceOne p ([] : Strat ℝ) [] = some 0 := by
-  sorry
-
-/-- **range**: for `1 ≤ p` the distance of two valid profiles lies in `[0, 1]` -/
-theorem distance_range (p : ℝ) (hp : 1 ≤ p) (a b : Strat ℝ) (ha : IsStrat a) (hb : IsStrat b)
-    (hs : SameShape a b) : ∃ d, distanceOne p a b = some d ∧ 0 ≤ d ∧ d ≤ 1 := by
-  sorry
+theorem distance_no_infosets (p : ℝ) (hp : 0 < p) : distanceOne p ([] : Strat ℝ) [] = some 0 :=
+  distanceOne_nil p hp []
 
 /-- non-negative for every positive `p` -/
 theorem distance_nonneg (p : ℝ) (hp : 0 < p) (a b : Strat ℝ) :
     ∃ d, distanceOne p a b = some d ∧ 0 ≤ d := by
-  sorry
+  by_cases hne : a = []
+  · subst hne
+    exact ⟨0, distanceOne_nil p hp b, le_refl _⟩
+  · refine ⟨_, distanceOne_eq p hp a b hne, ?_⟩
+    have h1 := zsum_nonneg p a.flatten b.flatten
+    have h2 := length_cast_pos a hne
+    positivity
+
+/-- **range**: for `1 ≤ p` the distance of two valid profiles lies in `[0, 1]` -/
+theorem distance_range (p : ℝ) (hp : 1 ≤ p) (a b : Strat ℝ) (ha : IsStrat a) (hb : IsStrat b)
+    (hs : SameShape a b) : ∃ d, distanceOne p a b = some d ∧ 0 ≤ d ∧ d ≤ 1 := by
+  have hp0 : 0 < p := by linarith
+  by_cases hne : a = []
+  · subst hne
+    exact ⟨0, distanceOne_nil p hp0 b, le_refl _, zero_le_one⟩
+  · refine ⟨_, distanceOne_eq p hp0 a b hne, ?_, ?_⟩
+    · have h1 := zsum_nonneg p a.flatten b.flatten
+      have h2 := length_cast_pos a hne
+      positivity
+    · have h1 := zsum_flatten_le p hp a b ha hb hs
+      have h2 := length_cast_pos a hne
+      rw [div_div, div_le_one (by positivity)]
+      linarith
 
 /-- **zero when the two profiles coincide** -/
 theorem distance_self (p : ℝ) (hp : 0 < p) (a : Strat ℝ) : distanceOne p a a = some 0 := by
-  sorry
+  by_cases hne : a = []
+  · subst hne
+    exact distanceOne_nil p hp []
+  · rw [distanceOne_eq p hp a a hne, zsum_self p hp]
+    simp
 
 /-- **positive when they differ in some infoset** -/
 theorem distance_pos (p : ℝ) (hp : 0 < p) (a b : Strat ℝ) (hs : SameShape a b) (hne : a ≠ b) :
     ∃ d, distanceOne p a b = some d ∧ 0 < d := by
-  sorry
+  have hane : a ≠ [] := by
+    rintro rfl
+    apply hne
+    have := sameShape_length _ _ hs
+    exact (List.length_eq_zero_iff.mp this.symm).symm
+  refine ⟨_, distanceOne_eq p hp a b hane, ?_⟩
+  have h1 := zsum_pos p a.flatten b.flatten (sameShape_flatten_length a b hs)
+    (fun h => hne (sameShape_flatten_inj a b hs h))
+  have h2 := length_cast_pos a hane
+  positivity
 
 /-- **symmetric** -/
 theorem distance_symm (p : ℝ) (a b : Strat ℝ) (hs : SameShape a b) :
     distanceOne p a b = distanceOne p b a := by
-  sorry
+  have hl := sameShape_length a b hs
+  by_cases hp : 0 < p
+  · by_cases hne : a = []
+    · subst hne
+      have hb : b = [] := List.length_eq_zero_iff.mp hl.symm
+      rw [hb]
+    · have hbne : b ≠ [] := by
+        rintro rfl
+        exact hne (List.length_eq_zero_iff.mp hl)
+      rw [distanceOne_eq p hp a b hne, distanceOne_eq p hp b a hbne, zsum_comm, hl]
+  · unfold distanceOne
+    rw [if_neg hp, if_neg hp]
 
 /-- the upper bound `1` is attained: disjoint pure strategies -/
 theorem distance_disjoint_pure (p : ℝ) (hp : 0 < p) :
     distanceOne p ([[1, 0]] : Strat ℝ) [[0, 1]] = some 1 := by
-  sorry
+  rw [distanceOne_eq p hp _ _ (by simp)]
+  norm_num [dterm]
 
 end Cfr
